@@ -96,6 +96,11 @@ TEMPLATES = [
     "A(i,j) = 0.0 * B(i,j)",
     "A(i,j) = 0 * B(j,i)",
     "a(i) = 3000000000 * b(i)",
+    # literals whose product / sum leaves the binary64 range (must still print as valid C)
+    "a(i) = 1e200 * 1e200 * b(i)",
+    "a(i) = b(i) * (1.7e308 + 1.7e308)",
+    "a() = 1e308 * 10",
+    "a(i) = 0.5 * 4 * b(i) + 1e-320",
     # repeated tensor
     "A(i,j) = B(i,j) * B(j,i)",
     "a(i) = b(i) * b(i)",
